@@ -25,6 +25,7 @@
     (C14_cancel_reaches_done); that the Go scheduler IS fair is not. *)
 From Coq Require Import Arith Bool List String Ascii ZArith.
 From CanVerif Require Import Runner.Lts Runner.RunModel Runner.LockDiscipline Runner.Protocol Runner.RunLts Runner.RunProofs.
+From CanVerif Require Import Dbc.Ast Runner.Program Runner.ProgramProofs.
 Import ListNotations.
 
 (** I4 exactly-once: accepted + ticks_taken - transmitted - aborted is 1 inside transmit, else 0 *)
@@ -377,4 +378,75 @@ Example C14_additions_nonvacuous :
     [TxInit 2; Lock 2; Access 2 (WFlag true); Unlock 2; Apply 2; GetWake 2; Tick 2] = false /\
   qrun qinit [QCancel; QConnectCall; QConnectRet true; QReturn true] = None /\
   qrun qinit [QCancel; QConnectCall; QConnectRet true; QSpawn 3; QWorkerRet true; QWorkerRet true; QWorkerRet true; QReturn true] = None.
+Proof. vm_compute. repeat split. Qed.
+
+(** ACTION-SEQUENCE TIE (DESIGN.md 9.6; Runner/Program.v).  The reference action programs of RunMessageTransmitter, its
+    closures and the generated message methods are compared node by node with the extraction of the CURRENT source on every
+    run; these are the structural facts of the reference programs the protocol model (Lts.v: S1..S4, SEL, X1..X9) rests on.
+    [paths p fuel pc] = all complete paths of the program graph from pc; [actions_on p path] = the classes of the lock /
+    unlock / message / hook / blocking / closure-call / select nodes along a path.
+    transmit closure: three complete paths, ending in node 6 (hook failed), 14 (TransmitFrame failed), 15 (return nil); the
+    last two perform exactly Lock, BeforeTransmitHook(), SetTransmitTime, Unlock, hook(ctx), Lock, Frame(), Unlock,
+    TransmitFrame - each once, in this order: one accepted request = one frame, marshalled after the hook returned *)
+Theorem C14_prog_transmit_paths :
+  forallb (fun path =>
+    let acts := actions_on p_RunMessageTransmitter_transmit path in
+    match last_of path with
+    | 6 => clslist_eqb acts [CLock; CMsg; CMsg; CUnlock; CHook]
+    | 14 | 15 => clslist_eqb acts [CLock; CMsg; CMsg; CUnlock; CHook; CLock; CMsg; CUnlock; CBlock]
+    | _ => false
+    end) (paths p_RunMessageTransmitter_transmit 40 0) = true
+  /\ List.length (paths p_RunMessageTransmitter_transmit 40 0) = 3.
+Proof. exact transmit_paths. Qed.
+Print Assumptions C14_prog_transmit_paths.
+
+(** the select (node 13) has the four arms ctx.Done -> return nil; wake-up -> setCyclicTransmission() -> select; event and
+    tick -> transmit() ONCE -> error: return it | nil: select *)
+Theorem C14_prog_select_arms :
+  (match nth_error p_RunMessageTransmitter 13 with
+   | Some n => cls_eqb (n_cls n) CSelect && natlist_eqb (n_succ n) [14; 15; 16; 19]
+   | None => false end) = true
+  /\ map (fun pc => match nth_error p_RunMessageTransmitter pc with Some n => (n_cls n, n_succ n) | None => (CRet, [99]) end)
+         [14; 15; 16; 17; 18; 19; 20; 21]
+     = [(CRet, []); (CCallFn, [13]); (CCallFn, [17]); (CTest, [18; 13]); (CRet, []); (CCallFn, [20]); (CTest, [21; 13]); (CRet, [])]
+  /\ bytes_eqb (text_at p_RunMessageTransmitter 16) (text_at p_RunMessageTransmitter 19) = true
+  /\ cls_at p_RunMessageTransmitter 16 = Some CCallFn /\ cls_at p_RunMessageTransmitter 15 = Some CCallFn.
+Proof. exact select_arms. Qed.
+Print Assumptions C14_prog_select_arms.
+
+(** ticker: created on exactly one path of enableCyclicTransmission - the false branch of the guard (node 2:
+    !isCyclic || !hasCycleTime || ticker != nil, with isCyclic / hasCycleTime defined by nodes 0 / 1 as SendType == cyclic /
+    CycleTime > 0); disable: Stop and nil on exactly the non-nil path; setCyclicTransmission: Lock, flag read, Unlock, then
+    exactly one of enable / disable *)
+Theorem C14_prog_ticker_paths :
+  paths p_RunMessageTransmitter_enableCyclicTransmission 20 0 = [[0; 1; 2; 3]; [0; 1; 2; 4; 5; 6]]
+  /\ paths p_RunMessageTransmitter_disableCyclicTransmission 20 0 = [[0; 1]; [0; 2; 3; 4]]
+  /\ paths p_RunMessageTransmitter_setCyclicTransmission 20 0 = [[0; 1; 2; 3; 4; 6]; [0; 1; 2; 3; 5; 6]]
+  /\ map (actions_on p_RunMessageTransmitter_setCyclicTransmission) (paths p_RunMessageTransmitter_setCyclicTransmission 20 0)
+     = [[CLock; CMsg; CUnlock; CCallFn]; [CLock; CMsg; CUnlock; CCallFn]].
+Proof. exact ticker_paths. Qed.
+Print Assumptions C14_prog_ticker_paths.
+
+(** generated message methods other than Transmit: no Lock/Unlock, hook call, blocking action or blocking select at all
+    (SetCyclicTransmissionEnabled's wake-up send is a select WITH default) *)
+Theorem C14_prog_generated_methods_passive :
+  forallb gen_prog_passive
+    [p_gen_Tx_init; p_gen_Tx_SetBeforeTransmitHook; p_gen_Tx_BeforeTransmitHook; p_gen_Tx_TransmitTime; p_gen_Tx_SetTransmitTime;
+     p_gen_Tx_IsCyclicTransmissionEnabled; p_gen_Tx_SetCyclicTransmissionEnabled; p_gen_Tx_WakeUpChan; p_gen_Tx_TransmitEventChan;
+     p_gen_Rx_init; p_gen_Rx_SetAfterReceiveHook; p_gen_Rx_AfterReceiveHook; p_gen_Rx_ReceiveTime; p_gen_Rx_SetReceiveTime] = true.
+Proof. exact gen_tx_progs_passive. Qed.
+Print Assumptions C14_prog_generated_methods_passive.
+
+Theorem C14_extracted_equal_is_reference : forall p q, first_diff p q = None -> p = q.
+Proof. exact first_diff_none_eq. Qed.
+Print Assumptions C14_extracted_equal_is_reference.
+
+Example C14_action_programs_nonvacuous :
+  cls_at p_gen_Tx_SetCyclicTransmissionEnabled 2 = Some CTrySel /\ cls_at p_gen_Tx_Transmit 1 = Some CSelect /\
+  gen_prog_passive p_gen_Tx_Transmit = false /\
+  first_diff p_RunMessageTransmitter_disableCyclicTransmission
+             [mkNode CTest (text_at p_RunMessageTransmitter_disableCyclicTransmission 0) [1; 2];
+              mkNode CRet (text_at p_RunMessageTransmitter_disableCyclicTransmission 1) [];
+              mkNode CCall (text_at p_RunMessageTransmitter_disableCyclicTransmission 2) [3];
+              mkNode CRet (text_at p_RunMessageTransmitter_disableCyclicTransmission 4) []] = Some 3.
 Proof. vm_compute. repeat split. Qed.
